@@ -184,7 +184,8 @@ impl TrainSet {
 fn gen_cells(rng: &mut Rng, tag: usize) -> Vec<String> {
     let pos = ["名詞", "動詞", "助詞", "記号", "a", "b"];
     let sub = ["一般", "*", "固有", "x"];
-    let n = 2 + rng.below(4);
+    // now and then a long row (feature indices of two digits, as in UniDic)
+    let n = if rng.chance(0.12) { 11 + rng.below(3) } else { 2 + rng.below(4) };
     let mut v = vec![rng.pick(&pos).to_string(), rng.pick(&sub).to_string()];
     for k in 2..n {
         v.push(match rng.below(6) {
@@ -204,8 +205,10 @@ pub fn gen_rules_n(rng: &mut Rng, below: usize, maxlen: usize) -> Vec<Rule> {
 }
 
 pub fn gen_rules(rng: &mut Rng, n: usize, maxlen: usize) -> Vec<Rule> {
-    let pats = ["*", "a", "b", "(a|b)", "名詞", "(名詞|動詞)", "一般", "*", "(a)", "(名詞)", "(b|a|c)"];
-    let outs = ["$1", "$2", "$3", "$4", "X", "a", "*", "$9", "$10", "$12", "$20", "$101"];
+    // (U+3000 and U+00A0 are text, not separators: the columns of a rule are separated by ASCII blanks; they
+    // never stand at the start or the end of a line here, where the reader trims the line)
+    let pats = ["*", "a", "b", "(a|b)", "名詞", "(名詞|動詞)", "一般", "*", "(a)", "(名詞)", "(b|a|c)", "(a|\u{3000})", "(\u{3000}|a)", "全\u{3000}角", "a", "b", "*", "名詞", "(a|b)"];
+    let outs = ["$1", "$2", "$3", "$4", "X", "a", "*", "$9", "$10", "$12", "$20", "$101", "全\u{3000}角", "y\u{a0}z", "$1", "$2", "X"];
     (0..n)
         .map(|_| {
             let pl = 1 + rng.below(maxlen);
@@ -229,7 +232,7 @@ pub fn gen_templates(rng: &mut Rng) -> (Vec<String>, Vec<(String, String)>) {
             4 => format!("U{i}:%F[1],%t,%F?[3]"),
             5 => format!("U{i}:%F?[1],%F?[2]"),
             6 => format!("(%F[0])U{i}"),
-            _ => format!("U{i}:%F[{}]", rng.below(6)),
+            _ => format!("U{i}:%F[{}]", [0usize, 1, 2, 3, 4, 5, 10, 11][rng.below(8)]),
         });
     }
     let nb = *rng.pick(&[1usize, 2, 3, 4, 5, 8, 9, 10]);
@@ -241,7 +244,8 @@ pub fn gen_templates(rng: &mut Rng) -> (Vec<String>, Vec<(String, String)>) {
                 1 => format!("B{i}:%{s}[0],%{s}[1]"),
                 2 => format!("B{i}:%{s}?[2]"),
                 3 => format!("B{i}:%{s}[1],%{s}?[2]"),
-                4 => format!("B{i}:%{s}[{}]", rng.below(6)),
+                4 => format!("B{i}:%{s}[{}]", [0usize, 1, 2, 3, 4, 5, 10, 11, 12][rng.below(9)]),
+                5 if rng.chance(0.3) => format!("B{i}:%{s}[0],%{s}?[{}]", 10 + rng.below(3)),
                 5 => format!("B{i}:%{s}?[1],%{s}?[2]"),
                 6 => format!("B{i}:%{s}?[0],%{s}[1],%{s}?[3]"),
                 7 => format!("[%{s}[0]|%{s}[1]]B{i}"),
@@ -826,7 +830,13 @@ pub fn train_bundled() -> Option<Model> {
 
 pub fn c15_case(ctx: &mut Ctx, rng: &mut Rng) {
     let bundled = ctx.index == 0;
-    let ts = gen_trainset(rng);
+    let mut ts = gen_trainset(rng);
+    if !bundled && rng.chance(0.15) {
+        // a seed surface with a line break inside (a quoted CSV cell); the corpus format cannot name it
+        let cells = ts.seed[0].1.clone();
+        ts.seed.push((["あ\nい", "a\n", "\nb", "a\r\nb"][rng.below(4)].to_string(), cells));
+        ctx.bucket("seed_surface_with_line_break");
+    }
     let desc = if bundled { json!({"training_set": "bundled resources"}) } else { ts.texts() };
     let mk = || if bundled { train_bundled().ok_or_else(|| "bundled".to_string()) } else { train(&ts) };
     let mut m = match mk() {
@@ -897,8 +907,18 @@ pub fn c15_case(ctx: &mut Ctx, rng: &mut Rng) {
         Ok(Err(e)) | Err(e) => return fail(ctx, "write_model", e),
     }
     let chunked = rng.chance(0.5);
+    // the model followed by the user lexicon in one stream, read through `&mut` one after the other
+    let mut shared = if !chunked && user_timing != 0 && !user_csv.is_empty() && rng.chance(0.5) {
+        let mut v = bytes.clone();
+        v.extend_from_slice(user_csv.as_bytes());
+        Some(std::io::Cursor::new(v))
+    } else {
+        None
+    };
     let mut m2 = match guarded(|| {
-        if chunked {
+        if let Some(cur) = shared.as_mut() {
+            Model::read_model(cur).map_err(|e| e.to_string())
+        } else if chunked {
             // the stored model arrives in small pieces (pipe, decompression stream)
             let rdr = crate::dictprops::ChunkReader { data: unsafe { std::mem::transmute::<&[u8], &'static [u8]>(bytes.as_slice()) }, pos: 0, rng: Rng(bytes.len() as u64 | 1), mode: 2, fail_at: None };
             Model::read_model(rdr).map_err(|e| e.to_string())
@@ -916,7 +936,16 @@ pub fn c15_case(ctx: &mut Ctx, rng: &mut Rng) {
     let with_user = user_timing != 0 && !user_csv.is_empty();
     if with_user {
         for (name, mm) in [("memory", &mut m), ("reloaded", &mut m2)] {
-            match guarded(|| mm.read_user_lexicon(user_csv.as_bytes()).map_err(|e| e.to_string())) {
+            let r = match shared.as_mut() {
+                Some(cur) if name == "reloaded" => {
+                    // (the user lexicon is what follows the model in the stream; the verdict is the comparison of
+                    // the generated files below)
+                    ctx.bucket("model_and_user_lexicon_from_one_stream");
+                    guarded(|| mm.read_user_lexicon(cur).map_err(|e| e.to_string()))
+                }
+                _ => guarded(|| mm.read_user_lexicon(user_csv.as_bytes()).map_err(|e| e.to_string())),
+            };
+            match r {
                 Ok(Ok(())) => {}
                 Ok(Err(e)) | Err(e) => return fail(ctx, &format!("read_user_lexicon_{name}"), e),
             }
@@ -1332,7 +1361,7 @@ pub fn c17_case(ctx: &mut Ctx, rng: &mut Rng) {
                 })
                 .collect();
             let text = rules_text(&sections);
-            let vals = ["a", "b", "名詞", "動詞", "一般", "*", "c", "x"];
+            let vals = ["a", "b", "名詞", "動詞", "一般", "*", "c", "x", "\u{3000}", "全\u{3000}角", "a", "b", "名詞"];
             let rlists: Vec<Vec<String>> = (0..40).map(|_| (0..if rng.chance(0.3) { 9 + rng.below(14) } else { rng.below(7) }).map(|k| if rng.chance(0.2) { format!("v{k}") } else { rng.pick(&vals).to_string() }).collect()).collect();
             if !c17_check(ctx, &text, sec, &rules, &rlists) {
                 return;
